@@ -199,6 +199,8 @@ def run(ctx):
         res.check(not any(re.search(r"\.multiple", g) for g in gl), "R3.4", "group-conflicts-unconditional", c.where(), "group-level conflicts apply to members of every group",
                   "a group's conflicts are only inherited by members of non-multiple groups (guard %s)" % [g for g in gl if "multiple" in g])
     pushes = [c for c in ga.calls_to(r"Vec::push$") if re.search(r"\.args|member", expr(ga, c.args[1]))]
+    # iterator form of the same step: conf.extend(group.args.iter().filter(other member).cloned())
+    pushes += [c for c in exts if re.search(r"\.args\b", expr(ga, c.args[1])) and not re.search(r"\.conflicts", expr(ga, c.args[1]))]
     res.floor("R3.4", "member exclusion pushes", len(pushes), 1)
     for c in pushes:
         res.check(any(re.match(r"^F:.*\.multiple$", g) for g in guard_strs(ga, c.bb)), "R3.4", "members-exclusive-unless-multiple", c.where(), "members of a non-multiple group exclude each other",
